@@ -64,6 +64,7 @@ func C16(c *Ctx) {
 	c.R.Rule("C16-R1", "E3", "write dominates memory update", 3)
 	c.R.Rule("C16-R2", "E4", "lock discipline and single critical section", 10)
 	c.R.Rule("C16-R3", "E7+E3", "one transaction for all records", 4)
+	c.R.Rule("C16-R7", "E3", "the store reports success only for a committed transaction, or when there was nothing to write", 2)
 	c.R.Rule("C16-R5", "E3", "a failed write is not acted upon: nothing emitted by the uncommitted transitions is reported or re-processed", 1)
 	c.R.Rule("C16-R6", "E1", "a script works on copies: a machine's bindings in memory cannot change before the write that records the transition", 1)
 	if ea, _ := c.ecmaAnalysis(); ea != nil {
@@ -244,6 +245,69 @@ func C16(c *Ctx) {
 			}
 		}
 		c.R.Check(ret, "C16-R3", "WriteState: returns the transaction's result", c.pos(up), "return db.Update(...)", "the transaction's error is not what WriteState returns")
+		// R7: success without a transaction only when there is nothing to write (no storage configured, or an empty batch)
+		nothingToWrite := func(f *ssa.Function, recv, batch int) func(b *ssa.BasicBlock, extra []flow.Fact) bool {
+			return func(b *ssa.BasicBlock, extra []flow.Fact) bool {
+				for _, ft := range append(flow.FactsAt(b), extra...) {
+					bo, isB := ft.Cond.(*ssa.BinOp)
+					if !isB || !((bo.Op == token.EQL && ft.True) || (bo.Op == token.NEQ && !ft.True)) {
+						continue
+					}
+					x, y := bo.X, bo.Y
+					if _, isC := x.(*ssa.Const); isC {
+						x, y = y, x
+					}
+					if recv >= 0 && recv < len(f.Params) && x == ssa.Value(f.Params[recv]) && ssau.IsNilConst(y) {
+						return true
+					}
+					if cl, isC := x.(*ssa.Call); isC && batch >= 0 && batch < len(f.Params) {
+						if bi, isBI := cl.Common().Value.(*ssa.Builtin); isBI && bi.Name() == "len" && cl.Common().Args[0] == ssa.Value(f.Params[batch]) {
+							if k, isK := ssau.ConstInt(y); isK && k == 0 {
+								return true
+							}
+						}
+					}
+				}
+				return false
+			}
+		}
+		batchIdx := -1
+		for i, p := range writeState.Params {
+			if _, isSl := p.Type().Underlying().(*types.Slice); isSl {
+				batchIdx = i
+			}
+		}
+		n7 := 0
+		for _, b := range writeState.Blocks {
+			rt, isRet := b.Instrs[len(b.Instrs)-1].(*ssa.Return)
+			if !isRet || len(rt.Results) != 1 || !ssau.IsNilConst(rt.Results[0]) {
+				continue
+			}
+			n7++
+			okN := nothingToWrite(writeState, 0, batchIdx)(b, nil)
+			if !okN {
+				// ... or a helper's verdict that implies it
+				for _, cl := range factCallTrue(b) {
+					h := cl.Common().StaticCallee()
+					if h == nil || prog.PkgOf(h) != "cmd/mcrew" {
+						continue
+					}
+					hr, hb := -1, -1
+					for i, a := range cl.Common().Args {
+						if a == ssa.Value(writeState.Params[0]) {
+							hr = i
+						}
+						if batchIdx >= 0 && a == ssa.Value(writeState.Params[batchIdx]) {
+							hb = i
+						}
+					}
+					if trueImplies(h, 0, nothingToWrite(h, hr, hb)) {
+						okN = true
+					}
+				}
+			}
+			c.R.Check(okN, "C16-R7", fmt.Sprintf("WriteState: success without a transaction #%d only when there is nothing to write", n7), c.pos(rt), "under 'no storage configured' (nil receiver) or an empty batch", "WriteState answers success without having written in a case where records were given to a configured storage: memory then advances without a persistent write")
+		}
 		// Put/Delete only inside the literal
 		var lit *ssa.Function
 		for _, a := range up.Common().Args {
